@@ -258,6 +258,9 @@ inductive JVal
   | obj (g g0 : Bytes) (key : Scal) (g1 : Bytes) (op : Op) (v : JVal) (rest : JFields) (gc : Bytes)
   | arrS (g g0 : Bytes) (s0 : Scal) (rest : JVals) (gc : Bytes)
   | arrC (g : Bytes) (first : JVal) (rest : JVals) (gc : Bytes)
+  /-- `g { b1 { b2 } …inside of v… `: a ghost `{}` at the very start of the (braced) value `v`; the
+  parser drops it, the kind of the container not being known yet -/
+  | ghostIn (g b1 b2 : Bytes) (v : JVal)
 inductive JFields
   | nil
   | cons (g0 : Bytes) (key : Scal) (g1 : Bytes) (op : Op) (v : JVal) (rest : JFields)
@@ -266,6 +269,9 @@ inductive JFields
   | consImp (g0 : Bytes) (key : Scal) (v : JVal) (rest : JFields)
   /-- ghost `{}` in key position: leaves no trace -/
   | ghost (g gc : Bytes) (rest : JFields)
+  /-- `key op h { … }`: an unquoted scalar `h` directly followed by a non-empty container is the
+  header of that container (`rgb { 1 2 3 }`, `hsv { … }`, `LIST { … }`) -/
+  | consHdr (g0 : Bytes) (key : Scal) (g1 : Bytes) (op : Op) (gh : Bytes) (h : Scal) (body : JVal) (rest : JFields)
 inductive JVals
   | nil
   | cons (v : JVal) (rest : JVals)
@@ -279,11 +285,23 @@ def jrenderV : JVal → Bytes
     g ++ 123 :: (g0 ++ (k.text ++ (g1 ++ (o.text ++ (jrenderV v ++ (jrenderF rest ++ (gc ++ [125])))))))
   | .arrS g g0 s0 rest gc => g ++ 123 :: (g0 ++ (s0.text ++ (jrenderVs rest ++ (gc ++ [125]))))
   | .arrC g first rest gc => g ++ 123 :: (jrenderV first ++ (jrenderVs rest ++ (gc ++ [125])))
+  | .ghostIn g b1 b2 v => g ++ 123 :: (b1 ++ 123 :: (b2 ++ 125 :: jinner v))
+/-- what stands behind the opening `{` of a braced value. -/
+def jinner : JVal → Bytes
+  | .scal _ _ => []
+  | .empty _ gc => gc ++ [125]
+  | .obj _ g0 k g1 o v rest gc =>
+    g0 ++ (k.text ++ (g1 ++ (o.text ++ (jrenderV v ++ (jrenderF rest ++ (gc ++ [125]))))))
+  | .arrS _ g0 s0 rest gc => g0 ++ (s0.text ++ (jrenderVs rest ++ (gc ++ [125])))
+  | .arrC _ first rest gc => jrenderV first ++ (jrenderVs rest ++ (gc ++ [125]))
+  | .ghostIn _ b1 b2 v => b1 ++ 123 :: (b2 ++ 125 :: jinner v)
 def jrenderF : JFields → Bytes
   | .nil => []
   | .cons g0 k g1 o v rest => g0 ++ (k.text ++ (g1 ++ (o.text ++ (jrenderV v ++ jrenderF rest))))
   | .consImp g0 k v rest => g0 ++ (k.text ++ (jrenderV v ++ jrenderF rest))
   | .ghost g gc rest => g ++ 123 :: (gc ++ 125 :: jrenderF rest)
+  | .consHdr g0 k g1 o gh h body rest =>
+    g0 ++ (k.text ++ (g1 ++ (o.text ++ (gh ++ (h.text ++ (jrenderV body ++ jrenderF rest))))))
 def jrenderVs : JVals → Bytes
   | .nil => []
   | .cons v rest => jrenderV v ++ jrenderVs rest
@@ -297,8 +315,12 @@ def JVal.isBraced : JVal → Prop
 /-- a non-empty container (what may stand first in an `arrC`; a leading `{}` would be dropped by
 the parser as a ghost object, the kind of the container not being known yet). -/
 def JVal.isContainer : JVal → Prop
-  | .obj .. | .arrS .. | .arrC .. => True
+  | .obj .. | .arrS .. | .arrC .. | .ghostIn .. => True
   | _ => False
+
+/-- the blanks in front of a value. -/
+def JVal.gap : JVal → Bytes
+  | .scal g _ | .empty g _ | .obj g .. | .arrS g .. | .arrC g .. | .ghostIn g .. => g
 
 mutual
 /-- layout validity of a value followed by `after`. -/
@@ -318,6 +340,9 @@ def JValidV : JVal → Bytes → Prop
   | .arrC g first rest gc, after =>
     Blank g ∧ Blank gc ∧ first.isContainer ∧
     JValidV first (jrenderVs rest ++ (gc ++ 125 :: after)) ∧ JValidVs rest (gc ++ 125 :: after)
+  | .ghostIn g b1 b2 v, after =>
+    -- (the blanks `v` carries in front of its own `{` are not rendered: they must be empty)
+    Blank g ∧ Blank b1 ∧ Blank b2 ∧ v.isBraced ∧ v.gap = [] ∧ JValidV v after
 def JValidF : JFields → Bytes → Prop
   | .nil, _ => True
   | .cons g0 k g1 o v rest, after =>
@@ -328,6 +353,10 @@ def JValidF : JFields → Bytes → Prop
     (k.quoted = false → StartsBoundary (jrenderV v ++ (jrenderF rest ++ after))) ∧
     JValidV v (jrenderF rest ++ after) ∧ JValidF rest after
   | .ghost g gc rest, after => Blank g ∧ Blank gc ∧ JValidF rest after
+  | .consHdr g0 k g1 o gh h body rest, after =>
+    Blank g0 ∧ Blank g1 ∧ Blank gh ∧ k.Valid ∧ (k.quoted = false → StartsBoundary (g1 ++ o.text)) ∧
+    h.Valid ∧ h.quoted = false ∧ StartsBoundary (jrenderV body ++ (jrenderF rest ++ after)) ∧
+    body.isContainer ∧ JValidV body (jrenderF rest ++ after) ∧ JValidF rest after
 def JValidVs : JVals → Bytes → Prop
   | .nil, _ => True
   | .cons v rest, after => JValidV v (jrenderVs rest ++ after) ∧ JValidVs rest after
@@ -340,11 +369,13 @@ def jcntV : JVal → Nat
   | .obj _ _ _ _ o v rest _ => 2 + (1 + o.toks.length + jcntV v) + jcntF rest
   | .arrS _ _ _ rest _ => 2 + 1 + jcntVs rest
   | .arrC _ first rest _ => 2 + jcntV first + jcntVs rest
+  | .ghostIn _ _ _ v => jcntV v
 def jcntF : JFields → Nat
   | .nil => 0
   | .cons _ _ _ o v rest => (1 + o.toks.length + jcntV v) + jcntF rest
   | .consImp _ _ v rest => (1 + jcntV v) + jcntF rest
   | .ghost _ _ rest => jcntF rest
+  | .consHdr _ _ _ o _ _ body rest => (1 + o.toks.length + (1 + jcntV body)) + jcntF rest
 def jcntVs : JVals → Nat
   | .nil => 0
   | .cons v rest => jcntV v + jcntVs rest
@@ -372,6 +403,7 @@ def jtapeV : JVal → Nat → Bytes → List Tok
       (jtapeV first (base + 1) (jrenderVs rest ++ (gc ++ 125 :: after)) ++
         jtapeVs rest (base + 1 + jcntV first) (gc ++ 125 :: after)) ++
       [.endTok base]
+  | .ghostIn _ _ _ v, base, after => jtapeV v base after
 def jtapeF : JFields → Nat → Bytes → List Tok
   | .nil, _, _ => []
   | .cons _ k g1 o v rest, base, after =>
@@ -382,6 +414,12 @@ def jtapeF : JFields → Nat → Bytes → List Tok
     [k.tok (jrenderV v ++ (jrenderF rest ++ after))] ++
       jtapeV v (base + 1) (jrenderF rest ++ after) ++ jtapeF rest (base + (1 + jcntV v)) after
   | .ghost _ _ rest, base, after => jtapeF rest base after
+  | .consHdr _ k g1 o gh h body rest, base, after =>
+    let Z := jrenderV body ++ (jrenderF rest ++ after)
+    [k.tok (g1 ++ (o.text ++ (gh ++ (h.text ++ Z))))] ++ o.toks ++
+      [.header ⟨h.bytes.length + Z.length, h.bytes⟩] ++
+      jtapeV body (base + 1 + o.toks.length + 1) (jrenderF rest ++ after) ++
+      jtapeF rest (base + (1 + o.toks.length + (1 + jcntV body))) after
 def jtapeVs : JVals → Nat → Bytes → List Tok
   | .nil, _, _ => []
   | .cons v rest, base, after =>
@@ -396,11 +434,13 @@ def jstepsV : JVal → Nat
   | .obj _ _ _ _ _ v rest _ => 3 + jstepsV v + jstepsF rest + 1
   | .arrS _ _ _ rest _ => 2 + jstepsVs rest + 1
   | .arrC _ first rest _ => 2 + jstepsV first + jstepsVs rest + 1
+  | .ghostIn _ _ _ v => 1 + jstepsV v
 def jstepsF : JFields → Nat
   | .nil => 0
   | .cons _ _ _ _ v rest => 2 + jstepsV v + jstepsF rest
   | .consImp _ _ v rest => 2 + jstepsV v + jstepsF rest
   | .ghost _ _ rest => 1 + jstepsF rest
+  | .consHdr _ _ _ _ _ _ body rest => 3 + jstepsV body + jstepsF rest
 def jstepsVs : JVals → Nat
   | .nil => 0
   | .cons v rest => jstepsV v + jstepsVs rest
@@ -418,6 +458,8 @@ inductive KVal
   | empty
   | obj (fs : KFields)
   | arr (vs : KVals)
+  /-- a container with a header (`rgb { … }`) -/
+  | hdr (h : Bytes) (body : KVal)
 inductive KFields
   | nil
   | cons (key : Scal) (op : Op) (v : KVal) (rest : KFields)
@@ -433,11 +475,13 @@ def kcontentV : JVal → KVal
   | .obj _ _ k _ o v rest _ => .obj (.cons k o (kcontentV v) (kcontentF rest))
   | .arrS _ _ s0 rest _ => .arr (.cons (.scal s0) (kcontentVs rest))
   | .arrC _ first rest _ => .arr (.cons (kcontentV first) (kcontentVs rest))
+  | .ghostIn _ _ _ v => kcontentV v
 def kcontentF : JFields → KFields
   | .nil => .nil
   | .cons _ k _ o v rest => .cons k o (kcontentV v) (kcontentF rest)
   | .consImp _ k v rest => .cons k .eq (kcontentV v) (kcontentF rest)
   | .ghost _ _ rest => kcontentF rest
+  | .consHdr _ k _ o _ h body rest => .cons k o (.hdr h.bytes (kcontentV body)) (kcontentF rest)
 def kcontentVs : JVals → KVals
   | .nil => .nil
   | .cons v rest => .cons (kcontentV v) (kcontentVs rest)
@@ -449,6 +493,7 @@ def kcntV : KVal → Nat
   | .empty => 2
   | .obj fs => 2 + kcntF fs
   | .arr vs => 2 + kcntVs vs
+  | .hdr _ body => 1 + kcntV body
 def kcntF : KFields → Nat
   | .nil => 0
   | .cons _ o v rest => (1 + o.toks.length + kcntV v) + kcntF rest
@@ -465,6 +510,7 @@ def ktapeV : KVal → Nat → List Tok
   | .empty, base => [.array (base + 1) false, .endTok base]
   | .obj fs, base => [.object (base + 1 + kcntF fs) false] ++ ktapeF fs (base + 1) ++ [.endTok base]
   | .arr vs, base => [.array (base + 1 + kcntVs vs) false] ++ ktapeVs vs (base + 1) ++ [.endTok base]
+  | .hdr h body, base => [.header ⟨0, h⟩] ++ ktapeV body (base + 1)
 def ktapeF : KFields → Nat → List Tok
   | .nil, _ => []
   | .cons k o v rest, base =>
